@@ -78,9 +78,12 @@ CHECKS = {
                     thorough=dict(shards=16, checks=2500, timeout=1800)),
                dict(pkg="table", run="^TestC07Retry$",
                     quick=dict(shards=4, checks=3, timeout=300),
-                    thorough=dict(shards=16, checks=12, timeout=900))],
-        rule='cases = histories of 2-15 hands with membership changes plus control operations at drawn moments: CloseTable inside the settled callback (continue delay), Close/Release after the gate was armed, repeated SetUpTableGame while the gate is pending or a hand runs; oracle: life-cycle automaton over every published status, game count +1 and fresh game id per opened hand, no open while unsettled, per-hand fields reset at every engine fence, no open after close/release; retry part (c07r): the gate fires while blinds are unset (3 ways), so the first open attempt fails and the engine sleeps 3 s before retrying; a drawn script of 1-3 UpdateBlind calls (valid level / break / unset again) lands inside that window; final break => no hand may open (game count 0, no hand state), final valid => hand 1 opens and is created with exactly that level; cases whose script took more than 2.5 s are dropped, not judged; non-trivial = >=3 consecutive hands with a membership change or any control operation; distinct = distinct abstract traces',
-        mandatory=dict(quick=['close_in_settled_cb', 'closed_after_gate_armed', 'released_after_gate_armed', 'double_setup', 'setup_while_hand_runs', 'three_hands_with_change', 'retry_final_break', 'retry_final_valid']),
+                    thorough=dict(shards=16, checks=12, timeout=900)),
+               dict(pkg="table", run="^TestC07Interval$",
+                    quick=dict(shards=6, checks=4, timeout=300),
+                    thorough=dict(shards=16, checks=24, timeout=1200))],
+        rule='cases = histories of 2-15 hands with membership changes plus control operations at drawn moments: CloseTable inside the settled callback (continue delay), Close/Release after the gate was armed, repeated SetUpTableGame while the gate is pending or a hand runs; oracle: life-cycle automaton over every published status, game count +1 and fresh game id per opened hand, no open while unsettled, per-hand fields reset at every engine fence, no open after close/release; interval part (c07i): the same histories (1-3 hands) on tables with a real 1 s continue delay; CloseTable / ReleaseTable / UpdateBlind(-1) / an arrival lands at a drawn offset 0-1.4 s after the settlement (both sides of the delayed continue step); whichever came first no hand may open afterwards (if the gate was armed it is completed and watched), and when the operation returned < 0.9 s after the settlement was published (so certainly before the 1 s step) the next hand must not even be set up, and a break must pause; retry part (c07r): the gate fires while blinds are unset (3 ways), so the first open attempt fails and the engine sleeps 3 s before retrying; a drawn script of 1-3 UpdateBlind calls (valid level / break / unset again) lands inside that window; final break => no hand may open (game count 0, no hand state), final valid => hand 1 opens and is created with exactly that level; cases whose script took more than 2.5 s are dropped, not judged; non-trivial = >=3 consecutive hands with a membership change or any control operation; distinct = distinct abstract traces',
+        mandatory=dict(quick=['close_in_settled_cb', 'closed_after_gate_armed', 'released_after_gate_armed', 'double_setup', 'setup_while_hand_runs', 'three_hands_with_change', 'retry_final_break', 'retry_final_valid', 'delay_close', 'delay_release', 'delay_break']),
         assumptions=ASSUME_COMMON,
     ),
     "C08": dict(
@@ -211,8 +214,8 @@ CHECKS = {
                  quick=dict(shards=1, checks=1, timeout=300),
                  thorough=dict(shards=4, checks=1, timeout=1800)),
         ],
-        rule="real decision-point snapshots presented to fresh player runners for every player and a stranger in status running / idle / suspended with action time 0, plus a timed batch (1-2 s thinking time, armed together, judged after one wait); oracle: never call/bet/raise/allin, pass immediately when it is the only option, otherwise the conservative choice (ready > check > fold > mandatory payment of exactly the posted size) immediately when suspended or action time 0, else not before the thinking time and the conservative choice afterwards, at most one call, nothing when not asked; non-trivial = conservative choice differs from the first allowed action, a mandatory payment, or a timed case; distinct = distinct generated histories / presentations",
-        mandatory=dict(quick=["choice_pass", "choice_ready", "choice_check", "choice_fold", "choice_pay_ante", "choice_pay_sb", "choice_pay_bb", "suspended", "idle", "timed_1s", "timed_2s"]),
+        rule="real decision-point snapshots presented to fresh player runners for every player and a stranger in status running / idle / suspended with action time 0, plus a timed batch (1-2 s thinking time, armed together, judged after one wait) in which half of the runners first go through a drawn history of status calls (Idle / Resume / Suspend / SetSuspendThreshold), requests that time out at once and manual actions; a model of that status interface says whether the final request must wait (running or idle below the threshold), is answered at once (explicit Suspend) or either (suspended by count); oracle: never call/bet/raise/allin, pass immediately when it is the only option, otherwise the conservative choice (ready > check > fold > mandatory payment of exactly the posted size) immediately when suspended or action time 0, else not before the thinking time and the conservative choice afterwards, at most one call, nothing when not asked; non-trivial = conservative choice differs from the first allowed action, a mandatory payment, or a timed case; distinct = distinct generated histories / presentations",
+        mandatory=dict(quick=["choice_pass", "choice_ready", "choice_check", "choice_fold", "choice_pay_ante", "choice_pay_sb", "choice_pay_bb", "suspended", "idle", "timed_1s", "timed_2s", "history_expect_wait", "history_expect_now", "history_idle_call_after_timeouts"]),
         assumptions=["the upper side (acts once the time is up) relies on a 1.5 s margin"],
     ),
     "C20": dict(
